@@ -497,10 +497,123 @@ def r_state(c):
         "a second partitioning in the same process sees the identifiers of the first "
         "(a correct program is then rejected, e.g. with a spurious CycleError)")
 
+
+def r_no_pending_receive_dropped(c):
+    """turning the broadcast schedule into local parts: the receives of one batch are
+    held back for the NEXT part.  At the end of an iteration the holder is overwritten,
+    so an iteration that opens no part must be one in which the holder is known to be
+    empty -- otherwise the held receives are lost, and a correct program is rejected
+    on this rank (KeyError / missing receive) while its peers wait.  Decided on the
+    case table of one iteration (pta/symrun.py)."""
+    m = c.model
+    import re
+    from pta import symrun
+    f0 = m.func("pytato.distributed.partition.find_distributed_partition")
+    f = m.inlined(f0)
+    where = m.loc(m.module_of(f0), f0)
+    name = "distributed.partition.find_distributed_partition"
+    found = 0
+    for loop in ast.walk(f):
+        if not (isinstance(loop, ast.For) and isinstance(loop.iter, ast.Name)
+                and isinstance(loop.target, ast.Name) and len(loop.body) >= 2):
+            continue
+        # the holder: a name re-assigned at the end of the body from the batch alone,
+        # and read by an append of a part in the body
+        last = loop.body[-1]
+        if not (isinstance(last, (ast.Assign, ast.AnnAssign))):
+            continue
+        tgt = last.targets[0] if isinstance(last, ast.Assign) else last.target
+        if not isinstance(tgt, ast.Name):
+            continue
+        holder = tgt.id
+        # (recognised by shape, not by names: the holder is read by an append in the
+        # body and refilled from the loop variable)
+        reads = any(isinstance(x, ast.Call) and isinstance(x.func, ast.Attribute)
+                    and x.func.attr == "append" and any(
+                        isinstance(y, ast.Name) and y.id == holder for y in ast.walk(x))
+                    for st in loop.body[:-1] for x in ast.walk(st))
+        refilled = any(isinstance(y, ast.Name) and y.id == loop.target.id
+                       for y in ast.walk(last.value))
+        if not (reads and refilled):
+            continue
+        if any(isinstance(x, ast.Name) and x.id == holder for x in ast.walk(last.value)):
+            raise AnalysisError("R10-RAISE-REACH: the holder of pending receives is updated "
+                                "from its own value; cannot decide by cases")
+        try:
+            tbl_ = symrun.table(loop.body[:-1], lambda t: None)
+        except AnalysisError:
+            raise AnalysisError("R10-RAISE-REACH: case explosion in the batches-to-parts loop")
+        found += 1
+        for cs, ev in tbl_.items():
+            cs = dict(cs)
+            appends = [e for e in ev if e[0] == "call" and e[1].endswith(".append")
+                       and any(re.search(r"\b" + re.escape(holder) + r"\b", a)
+                               for a in e[2])]
+            if appends:
+                continue
+            c.check(cs.get(holder) is False, "R10-RAISE-REACH", name,
+                    f"no-part-opened-only-if-no-receive-pending:{sorted(cs.items())}", where,
+                    f"in the case {sorted(cs.items())} an iteration over the schedule opens no "
+                    f"part although `{holder}` (the receives held back from the previous "
+                    "batch) is not known to be empty; it is overwritten at the end of the "
+                    "iteration: those receives belong to no part, a correct program is "
+                    "rejected on this rank while its peers wait")
+    # (a hazard rule: where no loop holds receives back in a variable that it
+    # overwrites -- the parts built by zipping the batches' receives and sends, say --
+    # there is nothing that could be dropped this way)
+    c.ok("R10-RAISE-REACH", name, f"holder-loops-examined:{found}", where, nontrivial=False)
+
+
+def r_every_receive_is_an_edge(c):
+    """the verifier's part graph has an edge 'receiving part needs sending part' for
+    EVERY receive whose send was found -- whether or not the part reads the received
+    name itself: waiting for a message blocks the part either way, and a cross-rank
+    wait cycle through a receive that only a later part reads is a deadlock all the
+    same.  Case table of one iteration of the loop over a part's receives: every case
+    that does not raise adds the edge."""
+    m = c.model
+    from pta import symrun
+    f0 = m.func("pytato.distributed.verify.verify_distributed_partition")
+    where = m.loc(m.module_of(f0), f0)
+    found = 0
+    # the loop, by role: the innermost loop around the lookup whose failure is
+    # reported as MissingSendError
+    loops = []
+    for t in ast.walk(f0):
+        if isinstance(t, ast.Try) and any(
+                isinstance(r, ast.Raise) and r.exc is not None
+                and "MissingSendError" in ast.unparse(r.exc)
+                for h in t.handlers for r in ast.walk(h)):
+            par = getattr(t, "_parent", None)
+            while par is not None and not isinstance(par, ast.For):
+                par = getattr(par, "_parent", None)
+            if par is not None and par not in loops:
+                loops.append(par)
+    for loop in loops:
+        found += 1
+        try:
+            tbl_ = symrun.table(loop.body, lambda t: None)
+        except AnalysisError:
+            raise AnalysisError("R10-CYCLE: case explosion in the loop over a part's receives")
+        for cs, ev in tbl_.items():
+            if any(e == ("exit", "raise") for e in ev):
+                continue
+            edge = any(e[0] == "call" and "needed_pid" in e[1] for e in ev)
+            c.check(edge, "R10-CYCLE", "distributed.verify.verify_distributed_partition",
+                    f"receive-adds-edge-to-sending-part:{sorted(cs)}", where,
+                    f"in the case {sorted(cs)} a receive whose send was found adds no edge "
+                    "from the receiving part to the sending part: a wait cycle across ranks "
+                    "through that receive is not reported (PartitionInducedCycleError) and a "
+                    "deadlocking partition is accepted")
+    if not found:
+        raise AnalysisError("anchor vanished: loop around the lookup whose failure raises "
+                            "MissingSendError")
+
 SPEC = Spec(
     prop="C10",
     rules=[r_raise_reach, r_check_before_insert, r_who_may_construct, r_cycle, r_no_reinit,
-           r_global_guards, r_state],
+           r_global_guards, r_state, r_no_pending_receive_dropped,
+           r_every_receive_is_an_edge],
     floors={"R10-RAISE-REACH": 6, "R10-CHECK-BEFORE-INSERT": 9, "R10-SELF": 2,
             "R10-CYCLE": 4, "R10-STATE": 2},
     explanation=(
@@ -521,7 +634,10 @@ SPEC = Spec(
         "a key-wise union. The test-then-insert window of a duplicate test contains "
         "no recursion into children (R10-CHECK-BEFORE-INSERT); the loop over the "
         "broadcast schedule is guarded by globally agreed values only "
-        "(R10-RAISE-REACH). R10-STATE: the partitioner and the verifier keep no "
+        "(R10-RAISE-REACH); on the case table of one iteration of that loop, no part is "
+        "opened only in cases that say the receives held back from the previous batch "
+        "are empty (R10-RAISE-REACH); every non-raising case of the verifier's loop over "
+        "a part's receives adds the edge to the sending part (R10-CYCLE). R10-STATE: the partitioner and the verifier keep no "
         "state that outlives a call (mutable default arguments, mutated class- or "
         "module-level containers), so that partitioning a correct program a second "
         "time gives the same verdict (canary fixture)."),
